@@ -69,6 +69,12 @@ func (svc *service) receiver() {
 				if !isEOF(err) {
 					log.Debugf("(%s) Reading from connection failed: %v", svc.cid(), err)
 				}
+				// Nothing can be read any more (keep-alive deadline, reset, EOF): close the
+				// connection, so that a sender blocked in Write fails, closes the outgoing
+				// buffer and releases a processor waiting for space in it. Otherwise a client
+				// that has stopped reading would keep the processor (and thus stop()) parked
+				// for ever. Closing a closed connection is harmless.
+				conn.Close()
 				return
 			}
 		}
